@@ -68,6 +68,11 @@ inductive Work
   | direct
   /-- `processFrame` returns an error without having taken a lock (HPACK decoding, unknown type) -/
   | bad
+  /-- a fragment of a split header block that does not complete it (HEADERS / PUSH_PROMISE without
+      END_HEADERS, CONTINUATION without END_HEADERS): buffered, no lock, nothing emitted.  The reader
+      goes back to its `select` with a fresh `ReadFrame` goroutine exactly as after any other frame:
+      "inside a header block" is NOT a reader state of its own (`Props/C10/MidBlock.lean`) -/
+  | frag
 deriving DecidableEq, Repr
 
 /-- Result of one `ReadFrame` call. -/
@@ -220,6 +225,7 @@ def afterTake (d : Dir) : Res → Rd
   | .frame (.settings n) => .lockWait d.other n true
   | .frame .direct => .mWait d none
   | .frame .bad => .exiting
+  | .frame .frag => .selReading
   | .eof => .exiting
   | .err => .exiting
 
@@ -367,6 +373,7 @@ def Rd.wt : Rd → Nat
   | .selReady (.frame (.data n)) => 9 + 4 * n
   | .selReady (.frame (.settings n)) => 9 + 4 * n
   | .selReady (.frame .direct) => 7
+  | .selReady (.frame .frag) => 5
   | .selReady _ => 3
 
 def Wr.wt : Wr → Nat
